@@ -829,7 +829,7 @@ fn shrink(sub: usize, key: &[u32], sig: &str) -> (Vec<u32>, Option<Fail>) {
 
 pub fn run(run: &Run) {
     run.rule(
-        "history: every sequence over {enable, disable, enter catch_panic, return (unique value), panic (unique message, String or &str payload), set_hook again, set fallback Continue, get_backtrace} \
+        "history: every sequence over {enable, disable, enter catch_panic, return (unique value), panic (unique message, String or &str payload; every third one unwinds past a local whose destructor calls catch_panic on a returning closure), set_hook again, set fallback Continue, get_backtrace} \
          in which `return` only occurs with an open frame, up to the stated length, complete (open frames are then closed by returns and a final probe panic outside any frame is appended), plus random histories of up to 30 steps that also use set-Abort-then-Continue; \
          each executed for real on a fresh thread in a helper process with a sentinel hook installed before the catcher's, checked after every step against the abstract model (enabled flag, frame stack with catching bit, level, sentinel messages, last recorded message); \
          pair: two threads in lock step (a scheduler grants one step at a time), every interleaving of the explicit steps of two histories over {enable, disable, enter, return, panic} of up to 3 steps (complete in thorough; in quick a fixed stride sample plus every pair in which both threads open a catching frame), every interleaving of 3x3 template pairs that catch panics and call get_backtrace, plus random pairs of up to 8 steps each over the full alphabet, each thread checked against its own model and against its own history run alone; \
@@ -1065,6 +1065,12 @@ impl Cx<'_> {
 
     /// Oracle after every step.
     fn check_state(&mut self) {
+        let (_, bad) = DROP_CATCH.with(|c| c.get());
+        if bad > 0 {
+            DROP_CATCH.with(|c| c.set((0, 0)));
+            self.fail("catch-panic-in-destructor-wrong", "a catch_panic call made from a destructor while a panic was unwinding did not return its closure's value".to_string());
+            return;
+        }
         let level = wirefilter::verif::panic_catcher_level();
         let (n, last) = sentinel_state();
         self.trace.push((self.pos, level, n, self.obs));
@@ -1102,6 +1108,26 @@ impl Cx<'_> {
         if lost {
             self.fail("schedule-exhausted", "the scheduler ended before this thread's history (harness error)".to_string());
         }
+    }
+}
+
+thread_local! {
+    /// (runs, wrong results) of the catch_panic calls made from a destructor during unwinding
+    static DROP_CATCH: std::cell::Cell<(u32, u32)> = const { std::cell::Cell::new((0, 0)) };
+}
+
+/// A local whose destructor calls `catch_panic` on a closure that returns normally
+/// (cleanup code that itself uses the library, run while a panic is unwinding).
+struct CatchInDrop(u64);
+
+impl Drop for CatchInDrop {
+    fn drop(&mut self) {
+        let v = self.0;
+        let r = catch_panic(move || v);
+        DROP_CATCH.with(|c| {
+            let (n, bad) = c.get();
+            c.set((n + 1, bad + (r != Ok(v)) as u32));
+        });
     }
 }
 
@@ -1224,6 +1250,8 @@ fn run_frame(cx: &mut Cx<'_>, me: Option<u32>) -> u64 {
                 let Effect::Panicked(landing) = eff else { unreachable!() };
                 let msg = message(cx.tag, pos);
                 cx.expect = Expect::Panic(landing, msg.clone());
+                // every third panic unwinds past a local whose destructor calls catch_panic
+                let _cleanup = if pos % 3 == 0 { Some(CatchInDrop(value(cx.tag, pos))) } else { None };
                 throw(msg, pos % 2 == 1);
             }
             _ => unreachable!(),
